@@ -35,6 +35,18 @@ Definition cobs (s : cstate) := (c_received s, c_label s, c_pid s, c_cr s, c_ipi
 PRE_SDP = PREAMBLE + '''
 Definition rdig (r : rsp) := let '(k, t, p, m) := rsp_obs r in (k, t, dig p, m).
 Definition crdig (r : cres) := let '(k, a) := cres_obs r in (k, dig a).
+Inductive ccall := KSearch (p : list Z) | KAttr (h : Z) (ids : list idspec) | KSearchAttr (p : list Z) (ids : list idspec).
+Fixpoint run_calls (recs : records) (mtu : Z) (cur : resp) (calls : list ccall) :=
+  match calls with
+  | [] => []
+  | k :: ks =>
+      let cr := match k with
+                | KSearch p => client_search_services recs mtu cur p
+                | KAttr h ids => client_get_attributes recs mtu cur h ids
+                | KSearchAttr p ids => client_search_attributes recs mtu cur p ids
+                end in
+      crdig (snd cr) :: run_calls recs mtu (fst cr) ks
+  end.
 '''
 M_AVDTP = ['Model.C19Chunks', 'Model.AvdtpAsm']
 M_AVCTP = ['Model.C19Chunks', 'Model.AvctpAsm']
@@ -158,6 +170,11 @@ def good_pairs():
         probes = (b'', b'\x00', b'\x04', bytes(range(7)), bytes([255] * 40), bytes(range(200)))
         for sig in range(64):
             for mt in range(3):
+                # total by construction: no registered subclass (generic Message, payload stored as is),
+                # or a registered subclass without fields
+                sub = avdtp.Message.subclasses.get(sig, {}).get(mt)
+                if sub is not None and tuple(sub.fields) != ():
+                    continue
                 good = True
                 for p in probes:
                     try:
@@ -332,15 +349,15 @@ def run_avdtp(ctx):
     for c in corpus('avdtp_frag'):
         cases.append((c['mtu'], c['label'], c['sig'], c['mt'], c['payload']))
     mtus = [4, 5, 6, 7, 8, 9, 16, 48, 49, 50, 64, 100, 255, 256, 672, 1024, 4096, 65535]
-    big_left = ctx.n(6, 120)
-    for _ in range(ctx.n(260, 4000)):
+    big_left = ctx.n(3, 40)
+    for _ in range(ctx.n(120, 1500)):
         mtu = rng.choice(mtus) if rng.chance(3, 4) else rng.range(4, 2000)
         F = mtu - 3
         k = rng.choice([0, 1, 1, 2, 3, 4, 7, 254, 255, 256])
         base = rng.choice([0, mtu - 4, mtu - 3, mtu - 2, mtu - 1, mtu, k * F, k * F, 255 * F])
         n = max(0, base + rng.choice([-2, -1, 0, 0, 1, 2]))
-        big_left = big_left - 1 if n > 6000 else big_left
-        if n > 70000 or (n > 6000 and big_left < 0):
+        big_left = big_left - 1 if n > 2500 else big_left
+        if n > 70000 or (n > 2500 and big_left < 0):
             # long payloads are slow to evaluate in the kernel: a bounded number per run
             n = rng.choice([mtu - 2, mtu - 3, mtu - 1, rng.below(3000)])
         sig, mt = rng.choice(pairs)
@@ -386,7 +403,7 @@ def run_avdtp(ctx):
                               f'but {len(sent)} packets were sent', replay)
     # ---- broken sequences fed to the real assembler
     seqs = [c['segments'] for c in corpus('avdtp_seq')]
-    for _ in range(ctx.n(500, 8000)):
+    for _ in range(ctx.n(250, 3000)):
         seqs.append(gen_avdtp_sequence(rng, rng.choice([1, 2, 3, 4, 6])))
     exprs = []
     for segs in seqs:
@@ -514,7 +531,7 @@ def avctp_seq_oracle(segs, out):
 def run_avctp(ctx):
     rng = ctx.rng.fork('avctp')
     seqs = [c['segments'] for c in corpus('avctp_seq')]
-    for _ in range(ctx.n(600, 8000)):
+    for _ in range(ctx.n(300, 3000)):
         seqs.append(gen_avctp_sequence(rng, rng.choice([1, 2, 3, 4, 6])))
     exprs = []
     for segs in seqs:
@@ -716,7 +733,7 @@ def run_streams(ctx):
     depth = 4 if ctx.quick() else 5
     for d in range(1, depth + 1):
         seqs.extend([list(s) for s in itertools.product(OPS, repeat=d)])
-    for _ in range(ctx.n(150, 3000)):
+    for _ in range(ctx.n(150, 2000)):
         # longer walks, biased towards legal moves so that deep states are visited
         st = IDLE
         ops = []
@@ -727,8 +744,28 @@ def run_streams(ctx):
             st = stream_next(op, st)
         seqs.append(ops)
     ctx.extra['stream_exhaustive_depth'] = depth
-    exprs = [f"run_trace p_init {coq_list(ops, lambda o: OPS_COQ[o])}" for ops in seqs]
-    model = ctx.coq_eval(M_STREAM, exprs, shard=120)
+    # The model is a finite-state machine: its complete step table (576 states x 6 operations) is
+    # evaluated once by the kernel, runs are table look-ups.
+    table_expr = ("(map pair_obs all_pairs, map (fun p => map (fun o => let '(p1, r) := step p o in "
+                  "(sres_code r, pair_obs p1)) all_ops) all_pairs)")
+    states, rows = ctx.coq_eval(M_STREAM, [table_expr])[0]
+    table = {}
+    for st_, row in zip(norm(states), norm(rows)):
+        for op, (code, nxt) in zip(OPS, row):
+            table[(tuple(st_), op)] = (code, nxt)
+    if len(table) != 576 * 6:
+        raise RuntimeError(f'stream model table has {len(table)} entries')
+    ctx.extra['stream_model_table_entries'] = len(table)
+
+    def model_trace(ops):
+        cur = [0, False, False, 0, False, False]
+        out = []
+        for op in ops:
+            code, cur = table[(tuple(cur), op)]
+            out.append([code, cur])
+        return out
+
+    model = [model_trace(ops) for ops in seqs]
 
     async def main():
         rig = await StreamRig().build()
@@ -1336,7 +1373,8 @@ def sdp_e2e_impl(recs, clients, delays):
                 except BaseException:
                     pass
         routed = [[cid for cid, _ in log].count(ci + 1) for ci in range(len(clients))]
-        return results, routed
+        oversize = [(cid, len(sdu), clients[cid - 1]['mtu']) for cid, sdu in log if len(sdu) > clients[cid - 1]['mtu']]
+        return results, routed + [oversize[:3]]
 
     return asyncio.run(main())
 
@@ -1375,25 +1413,17 @@ def _seq_size(n):
     return n + (2 if n <= 0xFF else 3 if n <= 0xFFFF else 5)
 
 
-def call_coq(call, mtu, cur):
+def call_coq(call):
     if call['kind'] == 'search':
-        return f"client_search_services recs {mtu} {cur} {pattern_coq(call['pattern'])}"
+        return f"KSearch {pattern_coq(call['pattern'])}"
     if call['kind'] == 'attr':
-        return f"client_get_attributes recs {mtu} {cur} {call['handle']} {ids_coq(call['ids'])}"
-    return f"client_search_attributes recs {mtu} {cur} {pattern_coq(call['pattern'])} {ids_coq(call['ids'])}"
+        return f"KAttr {call['handle']} {ids_coq(call['ids'])}"
+    return f"KSearchAttr {pattern_coq(call['pattern'])} {ids_coq(call['ids'])}"
 
 
 def e2e_model_expr(recs, clients):
     """per client: the chain of its calls, each starting from the continuation state the previous left"""
-    parts = []
-    for cl in clients:
-        expr = '[]'
-        # build from the last call backwards:  let '(c1, r1) := call0 RNone in crdig r1 :: (let ... )
-        def build(k, cur):
-            if k == len(cl['calls']):
-                return '[]'
-            return f"(let '(c{k}, r{k}) := {call_coq(cl['calls'][k], cl['mtu'], cur)} in crdig r{k} :: {build(k + 1, f'c{k}')})"
-        parts.append(build(0, 'RNone'))
+    parts = [f"run_calls recs {cl['mtu']} RNone {coq_list(cl['calls'], call_coq)}" for cl in clients]
     return f"let recs := {records_coq(recs)} in {coq_list(parts, lambda x: x)}"
 
 
@@ -1478,6 +1508,11 @@ def _response_size(recs, call):
 def e2e_check(ctx, sc, mres, label):
     recs, clients, delays = sc['recs'], sc['clients'], sc['delays']
     results, routed = sdp_e2e_impl(recs, clients, delays)
+    oversize = routed.pop()
+    if oversize:
+        cid, n, mtu = oversize[0]
+        ctx.violation('sdp:client:response-exceeds-mtu', f'SDP response of {n} bytes sent to client {cid} whose MTU is {mtu}',
+                      {'kind': 'sdp_e2e', 'scenario': sc})
     nontrivial = False
     for ci, cl in enumerate(clients):
         res = results[ci]
@@ -1543,7 +1578,7 @@ def run_sdp(ctx):
     rng = ctx.rng.fork('sdp')
     # ---- server level: real Server.on_connection / channel sink against s_run
     cases = [(c['recs'], c['ops']) for c in corpus('sdp_server')]
-    for _ in range(ctx.n(160, 2500)):
+    for _ in range(ctx.n(80, 800)):
         nclients = rng.choice([1, 2, 2, 3])
         mtus = [rng.choice(MTUS) for _ in range(nclients)]
         recs = gen_records(rng, rng.choice([1, 2, 3, 5, 9]), big=rng.choice([0, 0, 60, 200, 700]))
@@ -1562,17 +1597,35 @@ def run_sdp(ctx):
         ctx.count('sdp.server.requests', nreq)
         ctx.count('sdp.server.continuations', conts)
         ctx.count(f'sdp.server.clients.{nconn}')
-        if norm(mres) != flat:
-            ctx.disagree('sdp Server', {'recs': recs, 'ops': ops}, norm(mres), flat)
+        m = norm(mres)
+        # a bytes-kind continuation against a handle-list state with a budget < 2 is outside the model
+        # (EUnmodelled, kind 0): the comparison stops there, the oracle below still covers every response
+        cut = next((k for k, x in enumerate(m) if x[1][0] == 0), None)
+        if cut is not None:
+            ctx.count('sdp.server.cases_cut_at_unmodelled')
+            m, flat = m[:cut], flat[:cut]
+        if m != flat:
+            ctx.disagree('sdp Server', {'recs': recs, 'ops': ops}, m, flat)
         bad = sdp_server_oracle(ops, per_op)
         if bad:
             ctx.violation('sdp:server:' + bad[0], 'SDP server: ' + bad[1], {'kind': 'sdp_server', 'recs': recs, 'ops': ops})
     # ---- end to end: real Client(s) against the real Server
     scs = [c['scenario'] for c in corpus('sdp_e2e')]
-    for _ in range(ctx.n(140, 2500)):
+    for _ in range(ctx.n(90, 1000)):
         scs.append(gen_e2e(rng, big_ok=not ctx.quick()))
+    # service search with continuation: record counts around multiples of (mtu - 11) // 4, every MTU residue
+    for mtu in [48, 49, 50, 51, 52, 53, 54, 55, 57, 64, 100] + ([rng.range(48, 400) for _ in range(20)] if not ctx.quick() else []):
+        per = (mtu - 11) // 4
+        for n in rng.shuffle([per, per + 1, 2 * per, 2 * per + 1, 3 * per + 1])[:ctx.n(2, 5)]:
+            u = list(rng.choice(UUID_POOL[:6]))
+            recs = [[0x30000 + 7 * k, [[1, ['uuid', u]]] + ([[0, ['u32', 0x30000 + 7 * k]]] if k % 5 == 0 else [])] for k in range(n)]
+            if rng.chance(1, 2) and n > 2:
+                recs[rng.below(n)][1][0] = [1, ['uuid', list(UUID_POOL[7])]]      # one record that does not match
+            scs.append({'recs': recs, 'clients': [{'mtu': mtu, 'calls': [{'kind': 'search', 'pattern': [u]}]}],
+                        'delays': [rng.below(2) for _ in range(7)]})
+            ctx.count('sdp.e2e.search_continuation_family')
     # a few very large MTUs with responses around the 65526-byte capacity
-    for _ in range(ctx.n(2, 12)):
+    for _ in range(ctx.n(1, 12)):
         recs = gen_records(rng, 1)
         call = {'kind': 'attr', 'handle': recs[0][0], 'ids': [[0, 0xFFFF]]}
         recs[0][1].append([0x0300, ['text', 0, 9, 1]])
@@ -1671,6 +1724,10 @@ def search(ctx):
         sc = gen_e2e(rng, big_ok=False)
         before = len(ctx.violations)
         results, routed = sdp_e2e_impl(sc['recs'], sc['clients'], sc['delays'])
+        if routed[-1]:
+            ctx.violation('sdp:client:response-exceeds-mtu', f'SDP response larger than the peer MTU: {routed[-1][0]}',
+                          {'kind': 'sdp_e2e', 'scenario': sc})
+            return
         for ci, cl in enumerate(sc['clients']):
             for k, call in enumerate(cl['calls']):
                 got = results[ci][k] if k < len(results[ci]) else ['hang', None]
@@ -1726,6 +1783,6 @@ def replay(ctx, obj):
                 verdict = 'beyond the client limit' if want is None else ('ok' if got[:2] == want else 'WRONG')
                 ok = ok and verdict != 'WRONG'
                 print(f'client {ci + 1} {call["kind"]}: {_brief(got[0], got[1])}  [{verdict}]')
-        print('responses per channel:', routed)
-        print('oracle:', 'holds' if ok else 'VIOLATED')
+        print('responses per channel:', routed[:-1], 'larger than the MTU:', routed[-1])
+        print('oracle:', 'holds' if ok and not routed[-1] else 'VIOLATED')
     return 0
